@@ -36,6 +36,7 @@ from dataclasses import dataclass, field
 from typing import Any, Callable, Dict, List, Optional
 
 ROOT = os.path.dirname(os.path.dirname(os.path.abspath(__file__)))
+OUT = os.environ.get("VERIF_OUT", ROOT)  # replays/evidence land here (scratch dir for mutant runs)
 REPO_SRC = os.environ.get("VERIF_REPO_SRC", "/repo/src")
 HOOK_GUARD = "GTIRB_REWRITING_VERIF"
 
@@ -476,7 +477,7 @@ def run_property(prop_id: str, tier: str, seed: int, jobs: int) -> int:
 
     if todo:
         shrunk = pool_map(_shrink_bucket, todo, jobs)
-        os.makedirs(os.path.join(ROOT, "replays"), exist_ok=True)
+        os.makedirs(os.path.join(OUT, "replays"), exist_ok=True)
         for (pid, key, _orig, _), small in zip(todo, shrunk):
             # a shrunk spec may have drifted into a known class
             b = total["buckets"][key]
@@ -494,7 +495,7 @@ def run_property(prop_id: str, tier: str, seed: int, jobs: int) -> int:
                 small, fdict = b["spec"], b["failure"]
             name = f"{prop_id}-{fdict['clause'].split('.')[-1]}-{spec_hash(small)}.json"
             rel = os.path.join("replays", name)
-            with open(os.path.join(ROOT, rel), "w") as f:
+            with open(os.path.join(OUT, rel), "w") as f:
                 json.dump(
                     {
                         "property": prop_id,
@@ -553,8 +554,8 @@ def write_evidence(mod, prop_id, tier, seed, total, violations, known_hits, wall
         "wall_s": round(wall, 2),
         "violations": violations,
     }
-    os.makedirs(os.path.join(ROOT, "evidence"), exist_ok=True)
-    path = os.path.join(ROOT, "evidence", f"{prop_id}.json")
+    os.makedirs(os.path.join(OUT, "evidence"), exist_ok=True)
+    path = os.path.join(OUT, "evidence", f"{prop_id}.json")
     with open(path, "w") as f:
         json.dump(ev, f, indent=1, sort_keys=True, default=str)
     validate_evidence(ev)
